@@ -1482,7 +1482,10 @@ class Container:
                                             quantity_unit)
                                for substance, value in self.contents.items())
 
-        required_quantity = round(quantity - current_quantity, config.internal_precision)
+        required_quantity = quantity - current_quantity
+        if round(required_quantity, config.internal_precision) == 0:
+            # the container already holds the target: what is left is float noise
+            required_quantity = 0
         result = self._add(solvent, f"{required_quantity} {quantity_unit}")
         required_volume = Unit.convert(solvent, f"{required_quantity} {quantity_unit}", 'L')
         required_volume, unit = Unit.get_human_readable_unit(required_volume, 'L')
